@@ -245,3 +245,38 @@ C11_TWINS = [
     (_G2A + '::from_compressed', _G2A + '::from_compressed_unchecked', ['::is_on_curve', '::is_torsion_free']),
     (_G2A + '::from_uncompressed', _G2A + '::from_uncompressed_unchecked', ['::is_on_curve', '::is_torsion_free']),
 ]
+
+# ---------------------------------------------------------------- C09
+C09_VALUE_ESCAPE_CALLERS = [
+    'midnight_proofs::circuit::value::',                      # Value's own combinators (map_with_result, transpose, error_if_known_and ...)
+    '<midnight_proofs::circuit::value::',
+    '<midnight_proofs::plonk::keygen::Assembly as midnight_proofs::plonk::circuit::Assignment>::',
+    '<midnight_proofs::plonk::prover::WitnessCollection as midnight_proofs::plonk::circuit::Assignment>::',
+    '<midnight_proofs::dev::MockProver as midnight_proofs::plonk::circuit::Assignment>::',
+    'midnight_proofs::dev::',
+    '<midnight_proofs::dev::',
+    'midnight_proofs::circuit::',
+    '<midnight_proofs::circuit::',
+]
+C09_E2_EXCEPTIONS = {
+    'midnight_circuits::verifier::transcript_gadget::TranscriptGadget::init_with_proof|capture:proof_bytes':
+        dict(containment='proof-bytes', reason='copies the proof bytes out of the Value into the reader; the reader feeds only read_point/read_scalar whose results are assigned as witnesses'),
+    'midnight_circuits::verifier::msm::AssignedMsm::constrain_as_public_input_with_committed_scalars|capture:a':
+        dict(containment='unused', reason='dead debugging code: the leaked scalar is never read'),
+    'midnight_circuits::verifier::msm::AssignedMsm::constrain_as_public_input_with_committed_scalars|write:a':
+        dict(containment='unused', reason='dead debugging code: the leaked scalar is never read'),
+    'midnight_circuits::ecc::foreign::ecc_chip::ForeignEccChip::multi_select|capture:selector_idx':
+        dict(containment='index-only', reason='documented hack: the witness index only selects which table point supplies the *values* witnessed next to the lookup (enable_lookup = true assigns fresh cells, no copy constraint)'),
+    'midnight_circuits::ecc::foreign::ecc_chip::ForeignEccChip::multi_select|write:selector_idx':
+        dict(containment='index-only', reason='see capture:selector_idx'),
+    'midnight_circuits::ecc::foreign::ecc_chip::ForeignEccChip::k_out_of_n_points|capture:unwrapped_selected_idxs':
+        dict(containment='iter-index', reason='same hack as multi_select: indices only select the values witnessed next to the lookup'),
+    'midnight_circuits::ecc::foreign::ecc_chip::ForeignEccChip::k_out_of_n_points|write:unwrapped_selected_idxs':
+        dict(containment='iter-index', reason='see capture:unwrapped_selected_idxs'),
+    '<midnight_circuits::map::map_gadget::MapGadget as midnight_circuits::instructions::map::MapInstructions>::init|capture:init_map':
+        dict(containment='cpu-state', types=['map::cpu::MapMt'], reason='off-circuit Merkle-map state kept next to the assigned root; only feeds later witness values'),
+    '<midnight_circuits::map::map_gadget::MapGadget as midnight_circuits::instructions::map::MapInstructions>::init|write:init_map':
+        dict(containment='cpu-state', types=['map::cpu::MapMt'], reason='see capture:init_map'),
+    'midnight_circuits::map::map_gadget::MapGadget::update_state|capture:state':
+        dict(containment='cpu-state', types=['map_gadget::State', 'map::cpu::MapMt'], reason='off-circuit Merkle-map state; only feeds later witness values'),
+}
